@@ -141,7 +141,9 @@ func judgeAsks(s *sut, r *request, f []string, all []*request) string {
 		clause = "authorizer-asked-needlessly"
 	}
 	class := classify(s, r, all)
-	if class == classNames["xprov"] && !xprovCause(got, want) {
+	_, gotBy := extAuthzAskedBy(s.built, r)
+	_, wantBy := customAsksBy(s, r)
+	if class == classNames["xprov"] && !xprovCause(gotBy, wantBy) {
 		class = "other"
 	}
 	return fmt.Sprintf("FAIL %s:%s class=%s consulted=%s must-ask=%s %s", kind, clause, class, wire.EncList(got), wire.EncList(want), strings.Join(f, " "))
